@@ -4,7 +4,7 @@ import re
 
 from ..fdai import Engine, freeze, thaw
 from ..fold import NotConst
-from ..model import AnalysisError, U, walk_no_nested, parent, ancestors
+from ..model import AnalysisError, U, walk_no_nested, parent, ancestors, npos
 from .typestate import TPPlugin, TPEngine, to_rep_table, _istp
 
 
@@ -146,8 +146,8 @@ def r30_cli_flow(ctx):
     want = {"parse_format": "args.parse_format", "utc_mode": "args.utc_mode",
             "calendar_mode": "args.calendar",
             "ref_point_str": "args.ref_point_str"}
-    got = {k.arg: U(k.value).replace(argsv + ".", "args.")
-           for k in ctor[0].keywords} if ctor else {}
+    got = {k: U(v).replace(argsv + ".", "args.")
+           for k, v in ctx.bound_args(main, ctor[0]).items()} if ctor else {}
     rep.check(got == want, rule, ctx.fkey(main, None, "operator-keywords"),
               main.loc(), "--parse-format, --utc, --calendar and --ref reach "
               "the operator keyword of the same meaning",
@@ -234,28 +234,41 @@ def r30_cli_flow(ctx):
     rule = "R30.calendar"
     init = oper.methods["__init__"]
     body = init.node.body
-    idx_set = idx_parser = None
-    for i, st in enumerate(body):
-        for n in ast.walk(st):
-            if isinstance(n, ast.Call) and U(n.func).endswith(
-                    "set_calendar_mode") and idx_set is None:
-                idx_set = i if isinstance(st, ast.Expr) else None
-            if isinstance(n, ast.Call) and U(n.func) in (
-                    "TimePointParser", "TimePointDumper") and \
-                    idx_parser is None:
-                idx_parser = i
-    env_ok = any(isinstance(n, ast.If) and "not calendar_mode" in U(n.test)
-                 and "getenv" in U(n) and "ENV_CALENDAR_MODE" in U(n)
-                 for n in body)
-    rep.check(idx_set is not None and idx_parser is not None and
-              idx_set < idx_parser and env_ok, rule,
+    from ..flow import expand_values, is_absent_test, path_conds
+    set_call = None
+    first_parser = None
+    for n in walk_no_nested(init.node):
+        if isinstance(n, ast.Call) and U(n.func).endswith(
+                "set_calendar_mode") and set_call is None:
+            set_call = n
+        if isinstance(n, ast.Call) and U(n.func) in (
+                "TimePointParser", "TimePointDumper") and (
+                    first_parser is None or npos(n) < npos(first_parser)):
+            first_parser = n
+    params = set(init.call_params)
+    uncond = set_call is not None and not path_conds(set_call)
+    before = set_call is not None and first_parser is not None and \
+        npos(set_call) < npos(first_parser)
+    env_ok = False
+    if set_call is not None and (set_call.args or set_call.keywords):
+        arg = set_call.args[0] if set_call.args else \
+            set_call.keywords[0].value
+        leaves_ = expand_values(init.node, arg, ())
+        opt = [(v, c) for v, c in leaves_ if isinstance(v, ast.Name) and
+               v.id in params]
+        env = [(v, c) for v, c in leaves_ if "getenv" in U(v) and
+               "ENV_CALENDAR_MODE" in U(v)]
+        env_ok = bool(opt) and bool(env) and len(opt) + len(env) == len(
+            leaves_) and all(is_absent_test(c, opt[0][0].id)
+                             for _v, c in env)
+    rep.check(uncond and before and env_ok, rule,
               ctx.fkey(init, None, "set-mode-first"), init.loc(),
               "the operator sets the calendar mode unconditionally (option, "
               "else environment variable) before any parser is built",
               "DateTimeOperator.__init__ does not call set_calendar_mode "
-              "unconditionally before building its parsers (statement "
-              "indices: set=%s parsers=%s, env fallback=%s)" % (
-                  idx_set, idx_parser, env_ok), P + ("C15",))
+              "unconditionally before building its parsers (unconditional: "
+              "%s, before the parsers: %s, option else environment: %s)" % (
+                  uncond, before, env_ok), P + ("C15",))
     # explicit options win over the environment variables
     rule_env = "R30.env-precedence"
     for n in walk_no_nested(init.node):
@@ -263,17 +276,8 @@ def r30_cli_flow(ctx):
                                                           "os.environ.get")):
             continue
         dflt = [U(a) for a in n.args[1:]] + [U(k.value) for k in n.keywords]
-        guards = []
-        child = n
-        for a in ancestors(n):
-            if isinstance(a, ast.If) and any(
-                    child is x or any(child is y for y in ast.walk(x))
-                    for x in a.body):
-                guards.append(U(a.test))
-            child = a
-        params = set(init.call_params)
-        guarded = any(re.fullmatch(r"(not (\w+))|((\w+) is None)", g) and
-                      (set(re.findall(r"\w+", g)) & params) for g in guards)
+        conds_ = path_conds(n)
+        guarded = any(is_absent_test(conds_, p_) for p_ in params)
         bad_default = [d for d in dflt if d in params]
         rep.check(guarded and not bad_default, rule_env,
                   ctx.fkey(init, None, "getenv:" + U(n.args[0])),
@@ -291,11 +295,10 @@ def r30_cli_flow(ctx):
     for n in walk_no_nested(init.node):
         if isinstance(n, ast.Call) and U(n.func) in ("os.getenv",
                                                      "os.environ.get"):
-            for a in ancestors(n):
-                if isinstance(a, ast.If):
-                    for w in re.findall(r"\w+", U(a.test)):
-                        if w in init.call_params:
-                            env_params.add(w)
+            for t_, _pol in path_conds(n):
+                for w in re.findall(r"\w+", U(t_)):
+                    if w in init.call_params:
+                        env_params.add(w)
     ctor = [c for c in walk_no_nested(main.node) if isinstance(c, ast.Call)
             and U(c.func).endswith("DateTimeOperator")]
     if ctor and env_params:
@@ -326,8 +329,21 @@ def r30_cli_flow(ctx):
               "set_calendar_mode reaches Calendar.set_mode",
               "set_calendar_mode no longer calls Calendar.set_mode",
               P + ("C15",))
-    utc = any(isinstance(n, ast.If) and U(n.test) == "self.utc_mode" and
-              "(0, 0)" in U(n) for n in walk_no_nested(init.node))
+    # the zone the parser assumes: (0, 0) exactly under utc_mode
+    utc = False
+    for n in walk_no_nested(init.node):
+        if isinstance(n, ast.Call) and U(n.func) == "TimePointParser":
+            az = ctx.bound_args(init, n).get("assumed_time_zone")
+            if az is None:
+                continue
+            lv = expand_values(init.node, az, ())
+            zero = [c for v, c in lv if U(v) == "(0, 0)"]
+            rest = [c for v, c in lv if U(v) != "(0, 0)"]
+            utc = bool(zero) and bool(rest) and all(
+                any(U(t_).endswith("utc_mode") and pol for t_, pol in c)
+                for c in zero) and all(
+                any(U(t_).endswith("utc_mode") and not pol for t_, pol in c)
+                for c in rest)
     dp = oper.methods["date_parse"]
     # the conversion stands on every path to the returned pair: its
     # statement is a preceding sibling of (an ancestor of) every such return
@@ -615,6 +631,9 @@ def r51_offsets_one_by_one(ctx):
             if isinstance(e, ast.Subscript):
                 return is_list(e.value) and not isinstance(e.slice, ast.Slice)
             if isinstance(e, ast.BinOp):
+                # point + duration is a point; duration * n a duration
+                if isinstance(e.op, (ast.Add, ast.Sub)):
+                    return is_dur(e.left) and is_dur(e.right)
                 return is_dur(e.left) or is_dur(e.right)
             if isinstance(e, ast.UnaryOp):
                 return is_dur(e.operand)
